@@ -42,6 +42,9 @@ CFG = dict(
     rule="structured proto.Rules (protocol by name/number, 0-4 CIDRs per field with rare other-family and catch-all entries, "
          "0-40 port ranges per field, 0-3 named-port sets, IP sets, IP+port sets, ICMP type/code, all negations, every action, "
          "explicit/implicit/contradicting ip_version) x {iptables,nftables} x 3 mark layouts x flow-logs/untracked/REJECT/log-limit; "
+         "12% of rules have no ip_version and CIDR fields MIXING both families in every order; for those (and 8% of the others) the SAME "
+         "proto.Rule object is rendered for IPv4 then IPv6 (or 6 then 4) as the policy managers do, each rendering compared with the model of "
+         "the ORIGINAL rule and judged by the oracle on packets of that version, and the input rule must be left unmodified (deep proto compare); "
          "per rule up to 44 packets: one aimed at matching, then single-field perturbations on every CIDR edge +-1, port range end +-1, "
          "set members, each protocol, ICMP type/code grid, random entry marks (own verdict bit clear, scratch bits arbitrary); "
          "non-trivial = the renderer produced >=2 rules and >=10 packets were evaluated; distinct by (flavour, ip version, config, rule)",
